@@ -72,7 +72,7 @@ func (l *logSink) Write(p []byte) (int, error) {
 			}
 			l.panics = append(l.panics, msg)
 		}
-		if bytes.Contains(line, []byte(`"@level":"error"`)) {
+		if bytes.Contains(line, []byte(`"@level":"error"`)) || bytes.Contains(line, []byte(" [ERROR] ")) {
 			l.errors++
 		}
 	}
@@ -91,7 +91,11 @@ func (l *logSink) PanicCount() int {
 	return len(l.panics)
 }
 
-func (l *logSink) logger(level hclog.Level) hclog.Logger {
+func (l *logSink) logger(level hclog.Level, text ...bool) hclog.Logger {
+	if len(text) > 0 && text[0] {
+		// hclog's text format: the one that renders every value with fmt (the library's own default logger is of this kind)
+		return hclog.New(&hclog.LoggerOptions{Name: "sut", Level: level, Output: l})
+	}
 	return hclog.New(&hclog.LoggerOptions{Name: "sut", Level: level, Output: l, JSONFormat: true})
 }
 
@@ -145,6 +149,7 @@ type SrvCfg struct {
 	ReadTimeout    time.Duration
 	WriteTimeout   time.Duration
 	LogLevel       hclog.Level
+	LogText        bool // hclog's text format instead of JSON lines
 	OnClose        func(id int) // harness callback, called inside OnClose
 	NoOnClose      bool
 	Addr           string // default 127.0.0.1:0-ish (we pick a free port)
@@ -202,7 +207,7 @@ func newSrv(cfg SrvCfg) (*Srv, error) {
 			lvl = harnessLogLevel
 		}
 	}
-	opts := []gldap.Option{gldap.WithLogger(s.Log.logger(lvl))}
+	opts := []gldap.Option{gldap.WithLogger(s.Log.logger(lvl, cfg.LogText))}
 	if cfg.CtorTLS != nil {
 		opts = append(opts, gldap.WithTLSConfig(cfg.CtorTLS))
 	}
